@@ -1,11 +1,12 @@
-\* negative control: the mutated model must violate QuiescentUnlessRace
+\* negative control: the mutated model must violate QuiescentUnlessCbp
 SPECIFICATION SpecMut
 CONSTANTS
   Jobs = {j1}
   HasTimeout = {j1}
   IgnoresTerm = {}
   PopenMayFail = {j1}
+  PreFix = FALSE
   CoarseCancel = FALSE
   Modes = {"none", "nowait", "wait"}
   Mutation = "cancel_skips"
-INVARIANTS QuiescentUnlessRace
+INVARIANTS QuiescentUnlessCbp
